@@ -258,6 +258,9 @@ pub struct GenOps {
     last_session: String,
     decorate: bool,
     after_info: bool,
+    /// no `save` operations (the binary cross-check saves once at the end); also no TAB
+    /// characters, which a terminal would turn into a completion request
+    no_saves: bool,
 }
 
 impl GenOps {
@@ -275,6 +278,9 @@ impl GenOps {
         }
         if self.rng.chance(0.3) {
             t = format!("{t}{}", *self.rng.pick(&[" ", "  ", "\t", " \t "]));
+        }
+        if self.no_saves {
+            t = t.replace('\t', "  ");
         }
         t
     }
@@ -319,7 +325,7 @@ impl OpSource for GenOps {
                     };
                     return Some(Op::Command { line });
                 }
-                if r < 18 {
+                if r < 18 && !self.no_saves {
                     let how = *self.rng.pick(&[
                         "file", "file", "file", "writer", "writer", "writer", "devfull", "dir", "noparent",
                     ]);
@@ -1046,6 +1052,156 @@ pub fn exec_ops(w: &mut SessWorker, light: bool, src: &mut dyn OpSource, res: &m
     (executed, cuts)
 }
 
+/// Cross-check of the stubbed REPL loop against the real binary: the same lines are typed
+/// into the in-process glue and into the real interactive REPL (under a pseudo terminal);
+/// the history saved by the real REPL must consist of the lines that succeeded, must be
+/// identical to what the glue saves, and must replay (`numbat <file>`) successfully with the
+/// markers of exactly the successful lines.
+pub fn exec_binary(w: &mut SessWorker, trace: &Value, res: &mut ExecResult) {
+    let ops: Vec<Op> = trace["steps"]
+        .as_array()
+        .map(|a| a.iter().filter_map(Op::from_json).collect())
+        .unwrap_or_default();
+    let base = match w.base(false) {
+        Ok(b) => b,
+        Err(e) => {
+            res.harness_error = Some(e);
+            return;
+        }
+    };
+    let mut typed: Vec<String> = vec![];
+    let mut repl = ReplSim::new(base.ctx.clone());
+    let mut hist: Vec<Elem> = vec![];
+    let mut failed_markers: Vec<String> = vec![];
+    let mut fp = Fnv::default();
+    let marker_of = |l: &str| -> Option<String> {
+        let l = l.trim();
+        let n = l.strip_prefix("print(\"mk-")?.strip_suffix("\")")?;
+        Some(format!("mk-{n}"))
+    };
+    for op in &ops {
+        let line = match op {
+            Op::Line { step, .. } => step.text.clone(),
+            Op::Command { line } => line.clone(),
+            _ => continue,
+        };
+        fp.write_str(&line);
+        typed.push(line.clone());
+        match repl.line(&line, None) {
+            LineResult::Input(o) => {
+                res.bump("inputs");
+                if o.is_panic() {
+                    res.sut_panics.push(o.result_text());
+                    return;
+                }
+                if o.is_ok() {
+                    hist.push(Elem {
+                        text: line.clone(),
+                        out: o,
+                        features: vec![],
+                    });
+                } else {
+                    res.bump("fault.failing_line");
+                    failed_markers.extend(line.lines().filter_map(marker_of));
+                }
+            }
+            LineResult::Command { .. } => res.bump("commands"),
+            LineResult::Skipped => {}
+        }
+    }
+    let sandbox = std::path::PathBuf::from(work_dir()).join("pty");
+    let _ = std::fs::remove_dir_all(&sandbox);
+    let real_file = sandbox.join("run/real.nbt");
+    let glue_file = sandbox.join("glue.nbt");
+    let mut all = typed.clone();
+    all.push(format!("save {}", real_file.display()));
+    all.push("quit".to_string());
+    let r = crate::ptyrepl::run_repl(
+        &crate::c22::cli_binary(),
+        &sandbox,
+        crate::sess::MODULES_DIR,
+        &all,
+        std::time::Duration::from_secs(60),
+    );
+    let r = match r {
+        Ok(r) => r,
+        Err(e) => {
+            res.harness_error = Some(format!("pty REPL: {e}"));
+            return;
+        }
+    };
+    res.bump("pty_sessions");
+    if r.timed_out {
+        res.harness_error = Some(format!(
+            "pty REPL session timed out; output tail: {:?}",
+            r.output.chars().rev().take(600).collect::<String>().chars().rev().collect::<String>()
+        ));
+        return;
+    }
+    let _ = std::fs::create_dir_all(&sandbox);
+    let _ = repl.line(&format!("save {}", glue_file.display()), None);
+    let real = std::fs::read(&real_file).unwrap_or_default();
+    let glue = std::fs::read(&glue_file).unwrap_or_default();
+    fp.write(&real);
+    let lines_text = typed.iter().map(|l| l.replace('\n', " ⏎ ")).collect::<Vec<_>>().join(" | ");
+    if let Err(d) = saved_lines_match(&String::from_utf8_lossy(&real), &hist) {
+        res.fail(
+            "repl-binary-save",
+            format!("history saved by the real REPL does not consist of the successful lines: {d}; typed: {lines_text}"),
+        );
+        return;
+    }
+    if real != glue {
+        res.fail(
+            "repl-binary-save",
+            format!(
+                "history saved by the real REPL {:?} differs from what the in-process REPL glue saves {:?}; typed: {lines_text}",
+                String::from_utf8_lossy(&real),
+                String::from_utf8_lossy(&glue)
+            ),
+        );
+        return;
+    }
+    // replay with the real binary
+    if !hist.is_empty() {
+        let mut files = std::collections::BTreeMap::new();
+        files.insert("run/script.nbt".to_string(), real.clone());
+        let out = crate::c22::run_cli(
+            &["--no-config".to_string(), "--no-init".to_string(), "script.nbt".to_string()],
+            &files,
+            &[],
+            crate::sess::MODULES_DIR,
+        );
+        res.bump("replays_with_real_binary");
+        let so: Vec<&str> = out.stdout.lines().map(|l| l.trim()).collect();
+        if out.code != Some(0) {
+            res.fail(
+                "replay-diverged",
+                format!("`numbat <saved file>` exits with {:?}: stderr {:?}; file {:?}", out.code, out.stderr, String::from_utf8_lossy(&real)),
+            );
+            return;
+        }
+        let mut at = 0;
+        for m in hist.iter().flat_map(|e| e.text.lines().filter_map(marker_of).collect::<Vec<_>>()) {
+            match so[at..].iter().position(|l| *l == m) {
+                Some(p) => at += p + 1,
+                None => {
+                    res.fail("replay-diverged", format!("marker {m} of a successful line is missing or out of order when the saved file is replayed: stdout {:?}", out.stdout));
+                    return;
+                }
+            }
+        }
+        for m in &failed_markers {
+            if so.iter().any(|l| l == m) {
+                res.fail("replay-diverged", format!("marker {m} of a FAILED line shows up when the saved file is replayed"));
+                return;
+            }
+        }
+    }
+    res.fingerprint = fp.0;
+    res.nontrivial = hist.len() >= 3;
+}
+
 pub struct C07;
 
 impl Prop for C07 {
@@ -1065,8 +1221,58 @@ impl Prop for C07 {
     fn recycle_every(&self) -> u64 {
         4_000
     }
-    fn run(&self, w: &mut SessWorker, seed: u64, run: u64, _tier: Tier) -> (Value, ExecResult) {
+    fn run(&self, w: &mut SessWorker, seed: u64, run: u64, tier: Tier) -> (Value, ExecResult) {
         let mut rng = Rng::new(seed);
+        // sub-batch "binary": the real REPL under a pseudo terminal (expensive: ~1 s each)
+        let binary_every: u64 = std::env::var("NBSIM_C07_BINARY_EVERY")
+            .ok()
+            .and_then(|s| s.parse().ok())
+            .unwrap_or(if tier == Tier::Thorough { 400 } else { 2000 });
+        if run % binary_every == 1 {
+            let real = w.real_modules(false);
+            let mut cfg = Gen::swarm_cfg(&mut rng, true, real);
+            cfg.synthetic_modules = false;
+            cfg.light_base = false;
+            cfg.weights[18] = cfg.weights[18].max(5);
+            cfg.fault_kinds.retain(|k| {
+                !matches!(k, FaultKind::VmFault | FaultKind::BrokenModule | FaultKind::ModuleUnavailable)
+            });
+            if cfg.fault_kinds.is_empty() {
+                cfg.fault_kinds.push(FaultKind::RuntimeError);
+            }
+            let n = rng.range(4, 20) as usize;
+            let mut g = Gen::new(rng.fork(), cfg);
+            g.with_markers = true;
+            let mut src = GenOps {
+                gen_p: g,
+                gen_c: None,
+                fork_mode: false,
+                remaining_prefix: n,
+                remaining_suffix: 0,
+                forked: false,
+                dropped: None,
+                last_session: "R".into(),
+                decorate: true,
+                after_info: false,
+                no_saves: true,
+                rng,
+            };
+            // generate the lines against an in-process session (feedback), then cross-check
+            let mut res = ExecResult::default();
+            let (ops, _) = exec_ops(w, false, &mut src, &mut res);
+            let trace = json!({
+                "format": 1,
+                "property": "C07",
+                "config": {"base": "prelude", "mode": "binary", "faults": true},
+                "steps": ops.iter().map(|o| o.to_json()).collect::<Vec<_>>(),
+            });
+            if res.violation.is_some() || res.harness_error.is_some() {
+                return (trace, res);
+            }
+            let mut res = self.exec(w, &trace);
+            res.bump("runs.real-binary-repl");
+            return (trace, res);
+        }
         // sub-batches: 1 run in 4 is a fork run (no failing traffic); the others are REPL runs,
         // of which 1 in 4 is free of failing lines
         let fork_mode = run % 4 == 3;
@@ -1101,6 +1307,7 @@ impl Prop for C07 {
             last_session: "R".into(),
             decorate: !fork_mode,
             after_info: false,
+            no_saves: false,
             rng,
         };
         let mut res = ExecResult::default();
@@ -1121,6 +1328,11 @@ impl Prop for C07 {
         (trace, res)
     }
     fn exec(&self, w: &mut SessWorker, trace: &Value) -> ExecResult {
+        if trace["config"]["mode"].as_str() == Some("binary") {
+            let mut res = ExecResult::default();
+            exec_binary(w, trace, &mut res);
+            return res;
+        }
         let light = trace["config"]["base"].as_str() == Some("light");
         let ops: Vec<Op> = trace["steps"]
             .as_array()
@@ -1188,6 +1400,8 @@ impl Prop for C07 {
             "checks.m2",
             "checks.m3",
             "checks.fork_side",
+            "runs.real-binary-repl",
+            "replays_with_real_binary",
             "feature.redefinition",
             "feature.fn-redefinition",
             "feature.function-value",
